@@ -1,12 +1,15 @@
 ------------------------------- MODULE KvOps -------------------------------
 (* Pure operators shared by the C11 specifications (KvLog = Impl, KvLogTrace = Abs oracle).               *)
-(* A key's state is a record [val, exp]: val = 0 means absent, exp = 0 means "no expiry"; an expiry is a    *)
-(* small id standing for an absolute instant far in the future (C11 runs under a frozen wall clock, so no  *)
-(* key ever expires - expiry is just part of the value that has to be recovered).                          *)
+(* A key's state is a record [val, exp]: val = 0 means absent, exp = 0 means "no expiry", otherwise exp is  *)
+(* an ABSOLUTE instant on a small clock: the wall clock of the C11 runs has two values, now = 0 ("early")   *)
+(* and now = Late = 3 (after one `tick`).  An operation names an expiry by an id e: expireAt(k, e) means    *)
+(* the instant 2e, set-with-TTL e means now + 2e - so id 1 set early (instant 2) has passed when the clock  *)
+(* is late, id 2 (instant 4) and everything set late has not.  A key whose expiry has passed is ABSENT -    *)
+(* for a reopen (Norm) and for expireAt / persist (no-ops on it) - exactly as in C12's reference map.       *)
 (* An operation is a record [op, k, v, e, ks, vs]:                                                          *)
-(*   set k v | setx k v e (set with expiry) | rm k | exp k e (expireAt) | per k (persist)                   *)
+(*   set k v | setx k v e (set with TTL) | rm k | exp k e (expireAt) | per k (persist)                       *)
 (*   batch ks vs e (setBatch, e = 0: plain) | clear | rmp ks (removeWithPrefix; ks = the keys that have    *)
-(*   the prefix) | compact | nop                                                                            *)
+(*   the prefix) | compact | tick | nop                                                                     *)
 EXTENDS Integers, Sequences, FiniteSets
 
 NoKey == [val |-> 0, exp |-> 0]
@@ -18,21 +21,30 @@ Present(m, k) == m[k].val # 0
 SeqRange(s) == {s[i] : i \in 1..Len(s)}
 IdxOf(s, x) == CHOOSE i \in 1..Len(s) : s[i] = x
 
-(* the effect of a COMPLETED operation on the map (the plain reference-map reading of the API) *)
-Eff(o, m) ==
+Late == 3
+Dead(st, now) == st.val # 0 /\ st.exp # 0 /\ st.exp <= now
+Norm(st, now) == IF Dead(st, now) THEN NoKey ELSE st
+LiveK(m, k, now) == Present(m, k) /\ ~Dead(m[k], now)
+Abs2(e) == 2 * e                          \* expireAt(k, id e)
+Rel2(e, now) == IF e = 0 THEN 0 ELSE now + 2 * e    \* TTL id e taken at `now`
+
+(* the effect of a COMPLETED operation, called when the clock showed `now`, on the map (the plain reference-map *)
+(* reading of the API) *)
+EffT(o, m, now) ==
     CASE o.op = "set"   -> [m EXCEPT ![o.k] = [val |-> o.v, exp |-> 0]]
-      [] o.op = "setx"  -> [m EXCEPT ![o.k] = [val |-> o.v, exp |-> o.e]]
+      [] o.op = "setx"  -> [m EXCEPT ![o.k] = [val |-> o.v, exp |-> Rel2(o.e, now)]]
       [] o.op = "rm"    -> [m EXCEPT ![o.k] = NoKey]
-      [] o.op = "exp"   -> IF Present(m, o.k) THEN [m EXCEPT ![o.k] = [val |-> m[o.k].val, exp |-> o.e]] ELSE m
-      [] o.op = "per"   -> IF Present(m, o.k) THEN [m EXCEPT ![o.k] = [val |-> m[o.k].val, exp |-> 0]] ELSE m
+      [] o.op = "exp"   -> IF LiveK(m, o.k, now) THEN [m EXCEPT ![o.k] = [val |-> m[o.k].val, exp |-> Abs2(o.e)]] ELSE m
+      [] o.op = "per"   -> IF LiveK(m, o.k, now) THEN [m EXCEPT ![o.k] = [val |-> m[o.k].val, exp |-> 0]] ELSE m
       [] o.op = "batch" -> [k \in DOMAIN m |-> IF k \in SeqRange(o.ks)
-                                               THEN [val |-> o.vs[IdxOf(o.ks, k)], exp |-> o.e] ELSE m[k]]
+                                               THEN [val |-> o.vs[IdxOf(o.ks, k)], exp |-> Rel2(o.e, now)] ELSE m[k]]
       [] o.op = "clear" -> [k \in DOMAIN m |-> NoKey]
       [] o.op = "rmp"   -> [k \in DOMAIN m |-> IF k \in SeqRange(o.ks) THEN NoKey ELSE m[k]]
-      [] OTHER          -> m          \* compact, nop, reopen
+      [] OTHER          -> m          \* compact, tick, nop, reopen
 
-(* what a reopen after a crash may show for key k: the last completed effect, or - if k is touched by the *)
-(* operation that was in flight - its new state.  Keys are judged independently (the statement says "a key *)
-(* touched by the operation in flight may show either its old or its new state").                          *)
-Admissible(m, inflight, k) == {m[k], Eff(inflight, m)[k]}
+(* what a reopen at clock nowRec may show for key k: the last completed effect, or - if k is touched by the   *)
+(* operation that was in flight (called at clock nowCall) - its new state; in both cases absent if that state's *)
+(* expiry has passed by nowRec.  Keys are judged independently (the statement says "a key touched by the      *)
+(* operation in flight may show either its old or its new state").                                            *)
+AdmissibleT(m, inflight, k, nowCall, nowRec) == {Norm(m[k], nowRec), Norm(EffT(inflight, m, nowCall)[k], nowRec)}
 =============================================================================
